@@ -128,6 +128,15 @@ def summarise(pid, results, meta, tier, t0):
             continue
         seen_known.add(r['finding_key'])
         lines.append('KNOWN-FINDING: property=%s %s [%s]' % (pid, k.get('what', r['detail'][:200]), r['finding_key']))
+    # a refuted obligation whose counter-model has no native observable borrows the concrete failing input that the
+    # run-time contract of the same property found on the same tree in this run (if any)
+    native = [b for b in bounded if b['verdict'] == 'failed' and (b['witness'] or {}).get('cases')]
+    for r in violations:
+        if r['kind'] != 'bounded' and not (r['witness'] and r['witness'].get('replayed')) and native:
+            w = dict(r['witness'] or {})
+            w.update(replayed=True, replay_source='run-time contract %s of the same property on the same tree' % native[0]['id'],
+                     native_failing_case=native[0]['witness']['cases'][0])
+            r['witness'] = w
     for r in violations:
         path = os.path.join(common.REPLAY_DIR, pid, _safe(r['id']) + '.json')
         jdump(dict(property=pid, obligation=r['id'], kind=r['kind'], verdict=r['verdict'],
